@@ -231,7 +231,8 @@ def playback(tree, harness, log=None, timeout=900):
     if log:
         with open(log, "w") as fh:
             fh.write(out)
-    m = re.search(r"```\s*\n(.*?#\[test\].*?)```", out, re.S)
-    if not m:
-        m = re.search(r"(///[^\n]*\n#\[test\]\nfn kani_concrete_playback.*?\n}\n)", out, re.S)
-    return (m.group(1) if m else None), out
+    blocks = re.findall(r"```\s*\n(.*?#\[test\].*?)```", out, re.S)
+    # one test per failing check and per cover point: keep the ones that witness a failing check
+    fails = [b for b in blocks if "Check for `cover`" not in b]
+    chosen = fails or blocks
+    return ("\n".join(chosen) if chosen else None), out
